@@ -838,6 +838,15 @@ struct Keys {
     ch: Vec<char>,
     bo: Vec<bool>,
     u8: Vec<u8>,
+    /// the narrow and pointer-sized widths: the key serializer has one forwarder per width (seeded
+    /// change C19-11 sent i16 keys through the unsigned one)
+    i8: Vec<i8>,
+    i16: Vec<i16>,
+    i32: Vec<i32>,
+    isize: Vec<isize>,
+    u16: Vec<u16>,
+    u32: Vec<u32>,
+    usize: Vec<usize>,
     i64: Vec<i64>,
     u64: Vec<u64>,
     i128: Vec<i128>,
@@ -853,6 +862,13 @@ fn keys() -> Keys {
         ch: vec!['b', 'a', 'é', '😀', '"', 'Z', '1'],
         bo: vec![true, false],
         u8: vec![1, 0, u8::MAX, 10, 9],
+        i8: vec![1, -1, 0, i8::MAX, i8::MIN, 10, 9],
+        i16: vec![1, -1, 0, i16::MAX, i16::MIN, 10, 9],
+        i32: vec![1, -1, 0, i32::MAX, i32::MIN, 10, 9],
+        isize: vec![1, -1, 0, isize::MAX, isize::MIN, 10, 9],
+        u16: vec![1, 0, u16::MAX, 10, 9],
+        u32: vec![1, 0, u32::MAX, 10, 9],
+        usize: vec![1, 0, usize::MAX, 10, 9],
         i64: vec![1, -1, 0, i64::MAX, i64::MIN, 10, 9],
         u64: vec![1, 0, u64::MAX, i64::MAX as u64 + 1, 10, 9],
         i128: vec![1, -1, 0, i128::MAX, i128::MIN, u64::MAX as i128 + 1, 10, 9],
@@ -960,6 +976,14 @@ fn l1<T: Full>(cs: &mut Cases, v: &[T], k: &Keys) {
     l0(cs, mk_map(&k.ch, v));
     l0(cs, mk_map(&k.bo, v));
     l0(cs, mk_map(&k.u8, v));
+    l0(cs, mk_map(&k.i8, v));
+    l0(cs, mk_map(&k.i16, v));
+    l0(cs, mk_map(&k.i32, v));
+    l0(cs, mk_map(&k.isize, v));
+    l0(cs, mk_map(&k.u16, v));
+    l0(cs, mk_map(&k.u32, v));
+    l0(cs, mk_map(&k.usize, v));
+    l0(cs, mk_hmap(&k.i16, v));
     l0(cs, mk_map(&k.i64, v));
     l0(cs, mk_map(&k.u64, v));
     l0(cs, mk_map(&k.i128, v));
@@ -1576,7 +1600,7 @@ fn main() {
         "alphabets",
         json!({
             "leaves": "bool, i8..i128, isize, u8..u128, usize (MIN, -1, 0, 1, MAX; thorough adds the boundaries of every narrower width +-1, 2^53+1), f32/f64 (+-0, 1.5, MIN_POSITIVE, MAX, +-inf, NaN; thorough adds MIN, EPSILON, 0.1, smallest subnormal, 2^53+-1, 1e15/1e16/1e-7/1e300), char (a é 😀 \"; thorough adds NUL, newline, backslash, U+10FFFF, U+0301, space, ', {), String (\"\", a, é, a\"b; thorough adds 21/22-byte, multibyte 22-byte, <&>, {{ x }}, newline, true, 1, backslash, combining, NUL), (), unit struct U, unit-variant enum UE (one variant renamed to \"b c\")",
-            "combinators": "Option, SO{o: Option<T>, b: T}, Vec, (T,), (T,T), (T,bool,T), BTreeMap<K,T> for K in {String, &str (serialize only), char, bool, u8, i64, u64, i128, u128, UE}, HashMap<K,T> for K in {String, char, bool, i64, u128, UE}, newtype N(T), tuple struct TS(T,i64), struct S{a,n,s}, enum E{Unit, New(T), Tup(T,u8), Rec{x,y}, Empty{}, Nil(), Opt{note: Option<u8> skipped when None}}",
+            "combinators": "Option, SO{o: Option<T>, b: T}, Vec, (T,), (T,T), (T,bool,T), BTreeMap<K,T> for K in {String, &str (serialize only), char, bool, every integer width i8..i128, isize, u8..u128, usize, UE}, HashMap<K,T> for K in {String, char, bool, i64, u128, UE}, newtype N(T), tuple struct TS(T,i64), struct S{a,n,s}, enum E{Unit, New(T), Tup(T,u8), Rec{x,y}, Empty{}, Nil(), Opt{note: Option<u8> skipped when None}}",
             "second_level": "core combinators {Option, Vec, (T,T), BTreeMap<String,_>, HashMap<i64,_>, N, S, E} over leaves {u64, i128, String, f64, UE, ()} x every combinator",
             "unsupported_keys": "f64 (1.5, 1.0, NaN), f32, N(f64), Some(f64), tuples, Vec, None, (), unit struct, Some(()), bytes, maps, struct, tuple struct, newtype / tuple / struct variants; transparent wrappers Some(k), N(k) around supported keys are accepted-or-refused",
         }),
